@@ -15,6 +15,7 @@ Require Import Cirbo.Model.Base Cirbo.Model.Gate Cirbo.Model.Den Cirbo.Model.Cir
 Require Import Cirbo.Generated.Operators Cirbo.Generated.GateTypes.
 Require Import Cirbo.Proofs.WFEmplace Cirbo.Proofs.WFStep Cirbo.Proofs.SemExt Cirbo.Proofs.SemBench
         Cirbo.Proofs.SemBench2 Cirbo.Proofs.C14Final Cirbo.Proofs.WFBench Cirbo.Proofs.SemCex.
+Require Import Cirbo.Generated.Converters Cirbo.Proofs.ConvertersGen.
 
 (* ---- the rewrite rules, locally ---- *)
 Theorem C14_rules_denotation : forall a b x bs,
@@ -30,6 +31,47 @@ Theorem C14_rules_three_valued_refine : forall a b,
   st_le (oplt_ a b) (opand_ (opnot_ a) b []) /\ st_le (opleq_ a b) (opor_ (opnot_ a) b []) /\
   st_le (opgt_ a b) (opand_ a (opnot_ b) []) /\ st_le (opgeq_ a b) (opor_ a (opnot_ b) []).
 Proof. exact rules_three_valued_refine. Qed.
+
+(* ---- the tie of the rules to the source (translator T6) ----
+   Generated/Converters.v is regenerated from cirbo/core/circuit/converters.py on every check: one
+   Gallina function per `_convert_*` function with the same statement sequence, the `_convertors`
+   dict as a match (generated_convert_gate) and the set of rules that draw a uuid4
+   (generated_needs_fresh).  The model the theorems below are about is that regenerated code:
+   the FULL statement would be
+     forall c l g fresh, generated_convert_gate c l g fresh = convert_gate c l g fresh
+   and it is false in one corner, for the error KIND only: Python evaluates `_gate.operands[1]` of
+   _convert_lt / _convert_leq after emplace_gate, the hand model reads both operands first; for an
+   LT / LEQ gate with exactly one operand whose helper cannot be emplaced the source raises
+   CircuitValidationError and the hand model says PyIndexError (C14_rules_error_kind_corner).
+   Proved: the two are equal outside that corner, and in it both are errors of exactly these kinds;
+   hence normal returns coincide, for one rule and for the whole conversion (generated_into_bench =
+   the driver of Model/Connect.v over the regenerated rules), so every theorem of this file and the
+   into_bench case of C02, all of the form `into_bench c fresh = Ok c' -> ...`, holds verbatim for
+   the regenerated rules. *)
+Theorem C14_rules_regenerated :
+  (forall t, generated_needs_fresh t = needs_fresh t) /\
+  (forall c l g fresh,
+     generated_convert_gate c l g fresh = convert_gate c l g fresh \/
+     ((gtyp g = LT \/ gtyp g = LEQ) /\ length (gops g) = 1%nat /\
+      generated_convert_gate c l g fresh = Err CircuitValidationError /\
+      convert_gate c l g fresh = Err PyIndexError)) /\
+  (forall c l g fresh c',
+     generated_convert_gate c l g fresh = Ok c' <-> convert_gate c l g fresh = Ok c') /\
+  (forall c fresh c', generated_into_bench c fresh = Ok c' <-> into_bench c fresh = Ok c').
+Proof. exact rules_regenerated. Qed.
+
+(* full equality (errors included) when no LT / LEQ gate has exactly one operand, in particular
+   under arity_ok *)
+Theorem C14_rules_regenerated_eq : forall c fresh,
+  (forall x g, In (x, g) (gates c) -> gtyp g = LT \/ gtyp g = LEQ -> length (gops g) <> 1%nat) ->
+  generated_into_bench c fresh = into_bench c fresh.
+Proof. exact generated_into_bench_eq. Qed.
+
+(* the corner is real *)
+Theorem C14_rules_error_kind_corner :
+  generated_convert_gate cex_kind "l" (mkGate LT ["a"]) "X" = Err CircuitValidationError /\
+  convert_gate cex_kind "l" (mkGate LT ["a"]) "X" = Err PyIndexError.
+Proof. exact err_kind_differs. Qed.
 
 (* ---- the conversion ---- *)
 Theorem C14_interface_unchanged : forall c fresh c',
